@@ -2620,6 +2620,17 @@ func (f *fragment) readStorageFromArchive(r io.Reader) error {
 		return errors.Wrap(err, "copying")
 	}
 
+	// Check that the copy decodes before it replaces the data file: a
+	// rejected archive must leave the fragment as it was.
+	data, err := ioutil.ReadFile(path)
+	if err == nil {
+		err = roaring.NewFileBitmap().UnmarshalBinary(data)
+	}
+	if err != nil {
+		os.Remove(path)
+		return errors.Wrap(err, "validating")
+	}
+
 	// Close current storage.
 	if err := f.closeStorage(true); err != nil {
 		return errors.Wrap(err, "closing")
